@@ -60,6 +60,21 @@ func (ob observed) backendSent(name string) []string {
 	return nil
 }
 
+// subLines: a is a sub-multiset of b
+func subLines(a, b []string) bool {
+	left := map[string]int{}
+	for _, v := range b {
+		left[v]++
+	}
+	for _, v := range a {
+		if left[v] == 0 {
+			return false
+		}
+		left[v]--
+	}
+	return true
+}
+
 func sameLines(a, b []string) bool {
 	if len(a) != len(b) {
 		return false
@@ -248,8 +263,10 @@ func oneID(feature string, enabled, transformer bool, name string, v idVal, ob o
 	if transformer && !enabled && ob.seen == nil && len(got) == 0 {
 		return "", "" // the plugin sits behind the element of the chain that answered; nothing ran that could add it
 	}
-	if sent := ob.backendSent(name); len(got) < 1 || !sameLines(got[1:], sent) {
-		return fmt.Sprintf("%s enabled: the response (status %d, path %s) carries %d field lines for %s: %s; want exactly one, followed only by what the backend's own response carried (%s)", feature, ob.out.Status, ob.path, len(got), name, quoteAll(got), quoteAll(sent)), ""
+	// further field lines are tolerated only if they are the backend's own (the proxy may as well
+	// drop them in favour of the value it reports)
+	if sent := ob.backendSent(name); len(got) < 1 || !subLines(got[1:], sent) {
+		return fmt.Sprintf("%s enabled: the response (status %d, path %s) carries %d field lines for %s: %s; want the reported value first, followed at most by what the backend's own response carried (%s)", feature, ob.out.Status, ob.path, len(got), name, quoteAll(got), quoteAll(sent)), ""
 	}
 	id := got[0]
 	if id == "" {
